@@ -3551,6 +3551,9 @@ static Token *function(Token *tok, Type *basety, VarAttr *attr) {
   if (consume(&tok, tok, ";"))
     return tok;
 
+  if (scope->next)
+    error_tok(tok, "function definition is not allowed here");
+
   // A function definition needs complete parameter and return types.
   for (Type *t = ty->params; t; t = t->next)
     if ((t->kind == TY_STRUCT || t->kind == TY_UNION) && t->size < 0)
